@@ -71,6 +71,13 @@ Theorem C10_filters_agree :
 Proof. exact filters_agree. Qed.
 Print Assumptions C10_filters_agree.
 
+(* 5. Every linter command's rule_id filter (read from src/cli/linters) accepts exactly the rule ids that the code of
+      its own linter package can put on a violation (literals read from src/linters/<package>), and none of another
+      package: the command reports the findings of its linter and only those. *)
+Theorem C10_cli_filters_select_own_package : forallb (fun e => filter_exact (fst e) (snd e)) cmd_pkg = true.
+Proof. exact cli_filters_select_own_package. Qed.
+Print Assumptions C10_cli_filters_select_own_package.
+
 (* non-vacuity: with the symbolic rules, a directory run returns the three files' own findings plus the reports *)
 Example C10_nonvacuous :
   map out_all (sym_cli [] [] [(0, [0; 1; 2])] ideal [(0, 0); (1, 1); (2, 2)] [1] [(0, [2; 0; 1])])
